@@ -6,7 +6,7 @@
    loop above it.  Vocabulary: see C02.v and RepairSpec.v. *)
 From MLA Require Import Limit.
 From MLA Require Import Base Stream Blocks Writer Repair RepairSpec RepairPure
-  RepairProofs2 RepairProofs5 RepairProofs6 Inst.
+  RepairProofs2 RepairProofs5 RepairProofs6 Inst RepairSize RepairSizeWrap.
 From MLAProps Require C02.
 Open Scope N_scope.
 (* concrete examples: the production value of BINCODE_MAX_DESERIALIZE *)
@@ -38,15 +38,22 @@ Theorem C05_repair_intact_complete {LIM : Limit} :
   forall (S : Stream) (R : st S -> N -> Prop) (s0 : st S) (fuel : nat),
     In BEnd bl -> Refines S (body TS TC TA TE bl ++ trailer) R -> R s0 0 ->
     (N.to_nat (len (body TS TC TA TE bl ++ trailer)) < fuel)%nat ->
-    (* finalize did not fail with SerializationError: the footer of the repaired archive is
-       within BINCODE_MAX_DESERIALIZE (lim) and the u32 length field *)
-    repair FNMAX CACHE TS TC TA TE H S fuel s0 w_init <> Err EDeser ->
+    (* SIZE PREMISE (instead of "finalize did not fail with SerializationError"): the input is
+       small enough for the footer of the repaired archive to fit BINCODE_MAX_DESERIALIZE (lim)
+       and its u32 length field.  RepairSize.repair_footer_fits: the footer map takes at most
+       8 + 3 * (input bytes) bytes (constant c = 0).  For the production limit 536870912 the
+       premise holds for every input of at most 178956968 bytes (~170 MiB). *)
+    8 + 3 * len (body TS TC TA TE bl ++ trailer) <= N.min lim (2 ^ 32 - 1) ->
     exists (out : wstate) (obl : list block),
       repair FNMAX CACHE TS TC TA TE H S fuel s0 w_init = Ok (FEndOfData, [], out) /\
       good_output FNMAX TS TC TA TE H out obl /\
       Forall2 same (files_of bl) (files_of obl) /\
       (forall f, In f (files_of bl) -> f_ended f = true).
-Proof. exact repair_intact_complete. Qed.
+Proof.
+  intros FNMAX CACHE HFN HC TS TC TA TE Ht H HH bl trailer Hwf Htr S R s0 fuel Hend HR H0 Hfuel Hfit.
+  exact (repair_intact_complete FNMAX CACHE HFN HC TS TC TA TE Ht H HH bl trailer Hwf Htr S R s0 fuel Hend HR H0 Hfuel
+           (repair_no_ser_refines FNMAX CACHE TS TC TA TE H S _ R fuel s0 HR H0 Hfit)).
+Qed.
 
 (* a longer prefix never yields fewer bytes: for every name, what is recovered from the
    first n bytes is a prefix of what is recovered from the first m >= n bytes (the two runs
@@ -63,15 +70,22 @@ Theorem C05_repair_monotone {LIM : Limit} :
     n <= m ->
     Refines S1 (takeN n (body TS TC TA TE bl ++ trailer)) R1 -> R1 s1 0 -> (N.to_nat n < fuel1)%nat ->
     Refines S2 (takeN m (body TS TC TA TE bl ++ trailer)) R2 -> R2 s2 0 -> (N.to_nat m < fuel2)%nat ->
-    repair FNMAX CACHE TS TC TA TE H S1 fuel1 s1 w_init <> Err EDeser ->
-    repair FNMAX CACHE TS TC TA TE H S2 fuel2 s2 w_init <> Err EDeser ->
+    (* size premise, see C05_repair_intact_complete (for the longer cut; n <= m) *)
+    8 + 3 * m <= N.min lim (2 ^ 32 - 1) ->
     exists st1 u1 out1 obl1 st2 u2 out2 obl2,
       repair FNMAX CACHE TS TC TA TE H S1 fuel1 s1 w_init = Ok (st1, u1, out1) /\
       good_output FNMAX TS TC TA TE H out1 obl1 /\
       repair FNMAX CACHE TS TC TA TE H S2 fuel2 s2 w_init = Ok (st2, u2, out2) /\
       good_output FNMAX TS TC TA TE H out2 obl2 /\
       forall name, prefix (content_of (files_of obl1) name) (content_of (files_of obl2) name).
-Proof. exact repair_monotone. Qed.
+Proof.
+  intros FNMAX CACHE HFN HC TS TC TA TE Ht H HH bl trailer Hwf Htr n m S1 R1 s1 fuel1 S2 R2 s2 fuel2 Hnm
+         HR1 H01 Hf1 HR2 H02 Hf2 Hfit.
+  exact (repair_monotone FNMAX CACHE HFN HC TS TC TA TE Ht H HH bl trailer Hwf Htr n m S1 R1 s1 fuel1 S2 R2 s2 fuel2 Hnm
+           HR1 H01 Hf1 HR2 H02 Hf2
+           (repair_no_ser_cut FNMAX CACHE TS TC TA TE H S1 _ n R1 fuel1 s1 HR1 H01 (fits_limit_mono n m Hnm Hfit))
+           (repair_no_ser_cut FNMAX CACHE TS TC TA TE H S2 _ m R2 fuel2 s2 HR2 H02 Hfit)).
+Qed.
 
 (* maximality: for every file of the original, the content under its name in the repaired
    archive is exactly the concatenation of its content bytes lying before the cut
@@ -86,14 +100,19 @@ Theorem C05_repair_max {LIM : Limit} :
     wf_blocks FNMAX H bl -> In BEnd bl \/ trailer = [] ->
   forall (n : N) (S : Stream) (R : st S -> N -> Prop) (s0 : st S) (fuel : nat),
     Refines S (takeN n (body TS TC TA TE bl ++ trailer)) R -> R s0 0 -> (N.to_nat n < fuel)%nat ->
-    repair FNMAX CACHE TS TC TA TE H S fuel s0 w_init <> Err EDeser ->
+    (* size premise, see C05_repair_intact_complete *)
+    8 + 3 * n <= N.min lim (2 ^ 32 - 1) ->
     exists (status : fstatus) (unfinished : list bytes) (out : wstate) (obl : list block),
       repair FNMAX CACHE TS TC TA TE H S fuel s0 w_init = Ok (status, unfinished, out) /\
       good_output FNMAX TS TC TA TE H out obl /\
       (forall f, In f (files_of bl) ->
          content_of (files_of obl) (f_name f) =
          present (f_id f) bl (N.min n (len (body TS TC TA TE bl ++ trailer)))).
-Proof. exact repair_max. Qed.
+Proof.
+  intros FNMAX CACHE HFN HC TS TC TA TE Ht H HH bl trailer Hwf Htr n S R s0 fuel HR H0 Hfuel Hfit.
+  exact (repair_max FNMAX CACHE HFN HC TS TC TA TE Ht H HH bl trailer Hwf Htr n S R s0 fuel HR H0 Hfuel
+           (repair_no_ser_cut FNMAX CACHE TS TC TA TE H S _ n R fuel s0 HR H0 Hfit)).
+Qed.
 
 (* the same for any delivered prefix w of the block stream *)
 Theorem C05_repair_max_any_prefix {LIM : Limit} :
@@ -106,13 +125,18 @@ Theorem C05_repair_max_any_prefix {LIM : Limit} :
     wf_blocks FNMAX H bl -> In BEnd bl \/ trailer = [] ->
     prefix w (body TS TC TA TE bl ++ trailer) ->
   forall s0 : st S, R s0 0 -> forall fuel : nat, (N.to_nat (len w) < fuel)%nat ->
-    repair FNMAX CACHE TS TC TA TE H S fuel s0 w_init <> Err EDeser ->
+    (* size premise, see C05_repair_intact_complete *)
+    8 + 3 * len w <= N.min lim (2 ^ 32 - 1) ->
     exists (status : fstatus) (unfinished : list bytes) (out : wstate) (obl : list block),
       repair FNMAX CACHE TS TC TA TE H S fuel s0 w_init = Ok (status, unfinished, out) /\
       good_output FNMAX TS TC TA TE H out obl /\
       (forall f, In f (files_of bl) ->
          content_of (files_of obl) (f_name f) = present (f_id f) bl (len w)).
-Proof. exact repair_max_any_prefix. Qed.
+Proof.
+  intros FNMAX CACHE HFN HC TS TC TA TE Ht H HH S w R HR bl trailer Hwf Htr Hpre s0 H0 fuel Hfuel Hfit.
+  exact (repair_max_any_prefix FNMAX CACHE HFN HC TS TC TA TE Ht H HH S w R HR bl trailer Hwf Htr Hpre s0 H0 fuel Hfuel
+           (repair_no_ser_refines FNMAX CACHE TS TC TA TE H S w R fuel s0 HR H0 Hfit)).
+Qed.
 
 (* ---------- non-vacuity (the archive of C02.v) ---------- *)
 Import C02.
@@ -182,19 +206,24 @@ Theorem C05_repair_encrypted_intact_complete {LIM : Limit} :
     len (ew_out s) / (CHUNK + TAG) + 2 <= 2 ^ 32 ->
   forall (unauth : bool) (fuel : nat),
     In BEnd bl -> (N.to_nat (len (body TS TC TA TE bl ++ trailer) + TAG) < fuel)%nat ->
+    (* size premise, see C05_repair_intact_complete: the decryptor delivers at most |plain| + TAG bytes *)
+    8 + 3 * (len (body TS TC TA TE bl ++ trailer) + TAG) <= N.min lim (2 ^ 32 - 1) ->
     exists es b,
       fs_open CHUNK TAG ks (Cursor (ew_out s)) 0 = (es, Ok b) /\
-    (* finalize did not fail with SerializationError: the footer of the repaired archive is
-       within BINCODE_MAX_DESERIALIZE (lim) and the u32 length field *)
-    (repair FNMAX CACHE TS TC TA TE H (FsEnc CHUNK TAG ks tagc unauth (Cursor (ew_out s))) fuel es w_init
-       <> Err EDeser ->
     exists (out : wstate) (obl : list block),
       repair FNMAX CACHE TS TC TA TE H (FsEnc CHUNK TAG ks tagc unauth (Cursor (ew_out s))) fuel es w_init
         = Ok (FEndOfData, [], out) /\
       good_output FNMAX TS TC TA TE H out obl /\
       Forall2 same (files_of bl) (files_of obl) /\
-      (forall f, In f (files_of bl) -> f_ended f = true)).
-Proof. exact repair_encrypted_intact_complete. Qed.
+      (forall f, In f (files_of bl) -> f_ended f = true).
+Proof.
+  intros FNMAX CACHE HFN HC TS TC TA TE Ht H HH CHUNK TAG CIPHERBUF HCH HTAG ks tagc Htagc bl trailer Hwf Htr
+         pieces Hp fuelw s Hw Hbig unauth fuel Hend Hfuel Hfit.
+  destruct (repair_encrypted_intact_complete FNMAX CACHE HFN HC TS TC TA TE Ht H HH CHUNK TAG CIPHERBUF HCH HTAG ks tagc Htagc
+              bl trailer Hwf Htr pieces Hp fuelw s Hw Hbig unauth fuel Hend Hfuel) as (es & b & Ho & Hc).
+  exists es, b. split; [exact Ho|]. apply Hc.
+  exact (enc_whole_no_ser FNMAX CACHE TS TC TA TE H CHUNK TAG CIPHERBUF HCH ks tagc Htagc bl trailer pieces fuelw s Hp Hw Hbig Hfit unauth fuel es b Ho).
+Qed.
 
 (* every cut of the wire: for every file, exactly its content bytes lying in what the
    decryptor delivers (`fs_output`: auth_out / unauth_out of EncAuthFs.v, C04) are recovered *)
@@ -214,18 +243,25 @@ Theorem C05_repair_encrypted_max {LIM : Limit} :
     len (ew_out s) / (CHUNK + TAG) + 2 <= 2 ^ 32 ->
   forall (n : N) (unauth : bool) (fuel : nat),
     (N.to_nat (len (body TS TC TA TE bl ++ trailer) + TAG) < fuel)%nat ->
+    (* size premise, see C05_repair_intact_complete: the decryptor delivers at most |plain| + TAG bytes *)
+    8 + 3 * (len (body TS TC TA TE bl ++ trailer) + TAG) <= N.min lim (2 ^ 32 - 1) ->
     exists es b,
       fs_open CHUNK TAG ks (Cursor (takeN n (ew_out s))) 0 = (es, Ok b) /\
-    (repair FNMAX CACHE TS TC TA TE H (FsEnc CHUNK TAG ks tagc unauth (Cursor (takeN n (ew_out s))))
-            fuel es w_init <> Err EDeser ->
     exists (status : fstatus) (unfinished : list bytes) (out : wstate) (obl : list block),
       repair FNMAX CACHE TS TC TA TE H (FsEnc CHUNK TAG ks tagc unauth (Cursor (takeN n (ew_out s))))
              fuel es w_init = Ok (status, unfinished, out) /\
       good_output FNMAX TS TC TA TE H out obl /\
       (forall f, In f (files_of bl) ->
          content_of (files_of obl) (f_name f) =
-         present (f_id f) bl (len (fs_output CHUNK TAG ks tagc unauth (takeN n (ew_out s)))))).
-Proof. exact repair_encrypted_max. Qed.
+         present (f_id f) bl (len (fs_output CHUNK TAG ks tagc unauth (takeN n (ew_out s))))).
+Proof.
+  intros FNMAX CACHE HFN HC TS TC TA TE Ht H HH CHUNK TAG CIPHERBUF HCH HTAG ks tagc Htagc bl trailer Hwf Htr
+         pieces Hp fuelw s Hw Hbig n unauth fuel Hfuel Hfit.
+  destruct (repair_encrypted_max FNMAX CACHE HFN HC TS TC TA TE Ht H HH CHUNK TAG CIPHERBUF HCH HTAG ks tagc Htagc
+              bl trailer Hwf Htr pieces Hp fuelw s Hw Hbig n unauth fuel Hfuel) as (es & b & Ho & Hc).
+  exists es, b. split; [exact Ho|]. apply Hc.
+  exact (enc_cut_no_ser FNMAX CACHE TS TC TA TE H CHUNK TAG CIPHERBUF HCH ks tagc Htagc bl trailer pieces fuelw s Hp Hw Hbig Hfit n unauth fuel es b Ho).
+Qed.
 
 (* a longer cut never yields less — FULL statement, no assumption on the tag function.  For
    every writer output (premises as in C05_repair_encrypted_max), all cuts n <= m of the wire
@@ -259,13 +295,11 @@ Theorem C05_repair_encrypted_monotone {LIM : Limit} :
     n <= m -> (u1 = true -> u2 = true) ->
     (N.to_nat (len (body TS TC TA TE bl ++ trailer) + TAG) < fuel1)%nat ->
     (N.to_nat (len (body TS TC TA TE bl ++ trailer) + TAG) < fuel2)%nat ->
+    (* size premise, see C05_repair_intact_complete: the decryptor delivers at most |plain| + TAG bytes *)
+    8 + 3 * (len (body TS TC TA TE bl ++ trailer) + TAG) <= N.min lim (2 ^ 32 - 1) ->
     exists es1 b1 es2 b2,
       fs_open CHUNK TAG ks (Cursor (takeN n (ew_out s))) 0 = (es1, Ok b1) /\
       fs_open CHUNK TAG ks (Cursor (takeN m (ew_out s))) 0 = (es2, Ok b2) /\
-    (repair FNMAX CACHE TS TC TA TE H (FsEnc CHUNK TAG ks tagc u1 (Cursor (takeN n (ew_out s))))
-            fuel1 es1 w_init <> Err EDeser ->
-     repair FNMAX CACHE TS TC TA TE H (FsEnc CHUNK TAG ks tagc u2 (Cursor (takeN m (ew_out s))))
-            fuel2 es2 w_init <> Err EDeser ->
     exists st1 un1 out1 obl1 st2 un2 out2 obl2,
       repair FNMAX CACHE TS TC TA TE H (FsEnc CHUNK TAG ks tagc u1 (Cursor (takeN n (ew_out s))))
              fuel1 es1 w_init = Ok (st1, un1, out1) /\
@@ -274,8 +308,17 @@ Theorem C05_repair_encrypted_monotone {LIM : Limit} :
              fuel2 es2 w_init = Ok (st2, un2, out2) /\
       good_output FNMAX TS TC TA TE H out2 obl2 /\
       ((forall name, prefix (content_of (files_of obl1) name) (content_of (files_of obl2) name)) \/
-       Forgery CHUNK TAG ks tagc (takeN n (ew_out s)) (body TS TC TA TE bl ++ trailer))).
-Proof. exact repair_encrypted_monotone_full. Qed.
+       Forgery CHUNK TAG ks tagc (takeN n (ew_out s)) (body TS TC TA TE bl ++ trailer)).
+Proof.
+  intros FNMAX CACHE HFN HC TS TC TA TE Ht H HH CHUNK TAG CIPHERBUF HCH HTAG ks tagc Htagc bl trailer Hwf Htr
+         pieces Hp fuelw s Hw Hbig n m u1 u2 fuel1 fuel2 Hnm Hu Hf1 Hf2 Hfit.
+  destruct (repair_encrypted_monotone_full FNMAX CACHE HFN HC TS TC TA TE Ht H HH CHUNK TAG CIPHERBUF HCH HTAG ks tagc Htagc
+              bl trailer Hwf Htr pieces Hp fuelw s Hw Hbig n m u1 u2 fuel1 fuel2 Hnm Hu Hf1 Hf2)
+    as (es1 & b1 & es2 & b2 & Ho1 & Ho2 & Hc).
+  exists es1, b1, es2, b2. split; [exact Ho1|]. split; [exact Ho2|]. apply Hc.
+  - exact (enc_cut_no_ser FNMAX CACHE TS TC TA TE H CHUNK TAG CIPHERBUF HCH ks tagc Htagc bl trailer pieces fuelw s Hp Hw Hbig Hfit n u1 fuel1 es1 b1 Ho1).
+  - exact (enc_cut_no_ser FNMAX CACHE TS TC TA TE H CHUNK TAG CIPHERBUF HCH ks tagc Htagc bl trailer pieces fuelw s Hp Hw Hbig Hfit m u2 fuel2 es2 b2 Ho2).
+Qed.
 
 (* the layer fact behind it: on truncations of an unaltered encrypted stream the
    authenticated output grows with the cut, or the shorter cut holds a forgery *)
@@ -307,13 +350,11 @@ Theorem C05_repair_encrypted_monotone_unauth {LIM : Limit} :
     n <= m ->
     (N.to_nat (len (body TS TC TA TE bl ++ trailer) + TAG) < fuel1)%nat ->
     (N.to_nat (len (body TS TC TA TE bl ++ trailer) + TAG) < fuel2)%nat ->
+    (* size premise, see C05_repair_intact_complete: the decryptor delivers at most |plain| + TAG bytes *)
+    8 + 3 * (len (body TS TC TA TE bl ++ trailer) + TAG) <= N.min lim (2 ^ 32 - 1) ->
     exists es1 b1 es2 b2,
       fs_open CHUNK TAG ks (Cursor (takeN n (ew_out s))) 0 = (es1, Ok b1) /\
       fs_open CHUNK TAG ks (Cursor (takeN m (ew_out s))) 0 = (es2, Ok b2) /\
-    (repair FNMAX CACHE TS TC TA TE H (FsEnc CHUNK TAG ks tagc u1 (Cursor (takeN n (ew_out s))))
-            fuel1 es1 w_init <> Err EDeser ->
-     repair FNMAX CACHE TS TC TA TE H (FsEnc CHUNK TAG ks tagc true (Cursor (takeN m (ew_out s))))
-            fuel2 es2 w_init <> Err EDeser ->
     exists st1 un1 out1 obl1 st2 un2 out2 obl2,
       repair FNMAX CACHE TS TC TA TE H (FsEnc CHUNK TAG ks tagc u1 (Cursor (takeN n (ew_out s))))
              fuel1 es1 w_init = Ok (st1, un1, out1) /\
@@ -321,8 +362,17 @@ Theorem C05_repair_encrypted_monotone_unauth {LIM : Limit} :
       repair FNMAX CACHE TS TC TA TE H (FsEnc CHUNK TAG ks tagc true (Cursor (takeN m (ew_out s))))
              fuel2 es2 w_init = Ok (st2, un2, out2) /\
       good_output FNMAX TS TC TA TE H out2 obl2 /\
-      forall name, prefix (content_of (files_of obl1) name) (content_of (files_of obl2) name)).
-Proof. exact repair_encrypted_monotone. Qed.
+      forall name, prefix (content_of (files_of obl1) name) (content_of (files_of obl2) name).
+Proof.
+  intros FNMAX CACHE HFN HC TS TC TA TE Ht H HH CHUNK TAG CIPHERBUF HCH HTAG ks tagc Htagc bl trailer Hwf Htr
+         pieces Hp fuelw s Hw Hbig n m u1 fuel1 fuel2 Hnm Hf1 Hf2 Hfit.
+  destruct (repair_encrypted_monotone FNMAX CACHE HFN HC TS TC TA TE Ht H HH CHUNK TAG CIPHERBUF HCH HTAG ks tagc Htagc
+              bl trailer Hwf Htr pieces Hp fuelw s Hw Hbig n m u1 fuel1 fuel2 Hnm Hf1 Hf2)
+    as (es1 & b1 & es2 & b2 & Ho1 & Ho2 & Hc).
+  exists es1, b1, es2, b2. split; [exact Ho1|]. split; [exact Ho2|]. apply Hc.
+  - exact (enc_cut_no_ser FNMAX CACHE TS TC TA TE H CHUNK TAG CIPHERBUF HCH ks tagc Htagc bl trailer pieces fuelw s Hp Hw Hbig Hfit n u1 fuel1 es1 b1 Ho1).
+  - exact (enc_cut_no_ser FNMAX CACHE TS TC TA TE H CHUNK TAG CIPHERBUF HCH ks tagc Htagc bl trailer pieces fuelw s Hp Hw Hbig Hfit m true fuel2 es2 b2 Ho2).
+Qed.
 
 (* non-vacuity: the encrypted example archive of C02.v, uncut, both modes *)
 Example C05_example_encrypted_intact : forall unauth : bool,
@@ -337,9 +387,9 @@ Proof.
               ltac:(repeat split; discriminate) ex_H ex_H_len 32 4 8 ltac:(lia) ltac:(lia)
               toy_ks (toy_tag 4) (len_toy_tag 4) ex_bl ex_trailer C02_example_wf
               (or_introl ex_bl_end) C02.ex_pieces C02.ex_pieces_ok 200%nat C02.ex_ew C02.ex_ew_ok
-              ltac:(vm_compute; discriminate) unauth 300%nat ex_bl_end ltac:(vm_compute; lia))
-    as (es & b & Ho & Hcon).
-  destruct (Hcon ltac:(destruct unauth; prove_ser Ho)) as (out & obl & Hr & _ & Hs & _).
+              ltac:(vm_compute; discriminate) unauth 300%nat ex_bl_end ltac:(vm_compute; lia)
+              ltac:(vm_compute; discriminate))
+    as (es & b & Ho & out & obl & Hr & _ & Hs & _).
   exists es, b, out, obl. auto.
 Qed.
 
@@ -363,10 +413,8 @@ Proof.
               toy_ks (toy_tag 4) (len_toy_tag 4) ex_bl ex_trailer C02_example_wf
               (or_introl ex_bl_end) C02.ex_pieces C02.ex_pieces_ok 200%nat C02.ex_ew C02.ex_ew_ok
               ltac:(vm_compute; discriminate) 100 140 false false 300%nat 300%nat ltac:(lia)
-              ltac:(discriminate) ltac:(vm_compute; lia) ltac:(vm_compute; lia))
-    as (es1 & b1 & es2 & b2 & Ho1 & Ho2 & Hcon).
-  destruct (Hcon ltac:(prove_ser Ho1) ltac:(prove_ser Ho2))
-    as (st1 & un1 & out1 & obl1 & st2 & un2 & out2 & obl2 & R).
+              ltac:(discriminate) ltac:(vm_compute; lia) ltac:(vm_compute; lia) ltac:(vm_compute; discriminate))
+    as (es1 & b1 & es2 & b2 & Ho1 & Ho2 & st1 & un1 & out1 & obl1 & st2 & un2 & out2 & obl2 & R).
   destruct R as (R1 & R2 & R3 & R4 & R5).
   exists es1, b1, es2, b2, st1, un1, out1, obl1, st2, un2, out2, obl2.
   split; [exact Ho1|]. split; [exact Ho2|]. split; [exact R1|]. split; [exact R2|]. split; [exact R3|]. split; [exact R4|]. exact R5.
@@ -402,10 +450,10 @@ Proof.
               toy_ks ex_weak_tag ltac:(reflexivity) ex_bl ex_trailer C02_example_wf
               (or_introl ex_bl_end) C02.ex_pieces C02.ex_pieces_ok 200%nat ex_weak_ew ex_weak_ew_ok
               ltac:(vm_compute; discriminate)) as Hmax.
-    destruct (Hmax 40 false 300%nat ltac:(vm_compute; lia)) as (es1 & b1 & Ho1 & Hcon1).
-    destruct (Hcon1 ltac:(prove_ser Ho1)) as (st1 & un1 & out1 & obl1 & Hr1 & Hg1 & Hc1).
-    destruct (Hmax 41 false 300%nat ltac:(vm_compute; lia)) as (es2 & b2 & Ho2 & Hcon2).
-    destruct (Hcon2 ltac:(prove_ser Ho2)) as (st2 & un2 & out2 & obl2 & Hr2 & Hg2 & Hc2).
+    destruct (Hmax 40 false 300%nat ltac:(vm_compute; lia) ltac:(vm_compute; discriminate))
+      as (es1 & b1 & Ho1 & st1 & un1 & out1 & obl1 & Hr1 & Hg1 & Hc1).
+    destruct (Hmax 41 false 300%nat ltac:(vm_compute; lia) ltac:(vm_compute; discriminate))
+      as (es2 & b2 & Ho2 & st2 & un2 & out2 & obl2 & Hr2 & Hg2 & Hc2).
     exists es1, b1, es2, b2, st1, un1, out1, obl1, st2, un2, out2, obl2.
     split; [exact Ho1|]. split; [exact Ho2|]. split; [exact Hr1|]. split; [exact Hg1|]. split; [exact Hr2|]. split; [exact Hg2|]. split.
     + pose proof (Hc1 (mkF 7 [97] [1;2;3;4;5;6] true) ltac:(vm_compute; auto)) as E. cbn [f_name f_id] in E. rewrite E. vm_compute. reflexivity.
@@ -437,10 +485,10 @@ Proof.
               toy_ks (toy_tag 4) (len_toy_tag 4) ex_bl ex_trailer C02_example_wf
               (or_introl ex_bl_end) C02.ex_pieces C02.ex_pieces_ok 200%nat C02.ex_ew C02.ex_ew_ok
               ltac:(vm_compute; discriminate)) as Hmax.
-  destruct (Hmax 46 true 300%nat ltac:(vm_compute; lia)) as (es1 & b1 & Ho1 & Hcon1).
-  destruct (Hcon1 ltac:(prove_ser Ho1)) as (st1 & un1 & out1 & obl1 & Hr1 & Hg1 & Hc1).
-  destruct (Hmax 46 false 300%nat ltac:(vm_compute; lia)) as (es2 & b2 & Ho2 & Hcon2).
-  destruct (Hcon2 ltac:(prove_ser Ho2)) as (st2 & un2 & out2 & obl2 & Hr2 & Hg2 & Hc2).
+  destruct (Hmax 46 true 300%nat ltac:(vm_compute; lia) ltac:(vm_compute; discriminate))
+    as (es1 & b1 & Ho1 & st1 & un1 & out1 & obl1 & Hr1 & Hg1 & Hc1).
+  destruct (Hmax 46 false 300%nat ltac:(vm_compute; lia) ltac:(vm_compute; discriminate))
+    as (es2 & b2 & Ho2 & st2 & un2 & out2 & obl2 & Hr2 & Hg2 & Hc2).
   rewrite Ho1 in Ho2. pose proof (f_equal fst Ho2) as Ee. cbn [fst] in Ee. subst es2. clear Ho2.
   exists es1, b1, st1, un1, out1, obl1, st2, un2, out2, obl2.
   split; [exact Ho1|]. split; [exact Hr1|]. split; [exact Hg1|]. split; [exact Hr2|]. split; [exact Hg2|]. split.
@@ -536,10 +584,8 @@ Theorem C05_repair_intact_complete_src {LIM : Limit} :
     RdBounded S ->
     In BEnd bl -> Refines S (body TS TC TA TE bl ++ trailer) R -> R s0 0 ->
     (N.to_nat (len (body TS TC TA TE bl ++ trailer)) < fuel)%nat ->
-    (* the translated function did not fail with SerializationError: the footer of the repaired
-       archive is within BINCODE_MAX_DESERIALIZE (lim) and the u32 length field *)
-    snd (Src3r.convert_to_archive FNMAX CACHE TS TC TA TE H (footer_ser (fun f => f)) (fun _ => Ok tt) S
-           (block_from FNMAX TS TC TA TE S) fuel s0 aw_init) <> Err EDeser ->
+    (* size premise, see C05_repair_intact_complete *)
+    8 + 3 * len (body TS TC TA TE bl ++ trailer) <= N.min lim (2 ^ 32 - 1) ->
     exists (l : Src3r.Locals S) (e : Src3r.FailSafeReadError) (obl : list block),
       Src3r.convert_to_archive FNMAX CACHE TS TC TA TE H (footer_ser (fun f => f)) (fun _ => Ok tt) S
         (block_from FNMAX TS TC TA TE S) fuel s0 aw_init = (l, Ok e) /\
@@ -547,7 +593,12 @@ Theorem C05_repair_intact_complete_src {LIM : Limit} :
       good_output FNMAX TS TC TA TE H (absW (Src3r.l_output S l)) obl /\
       Forall2 same (files_of bl) (files_of obl) /\
       (forall f, In f (files_of bl) -> f_ended f = true).
-Proof. exact repair_intact_complete_src. Qed.
+Proof.
+  intros FNMAX CACHE HFN HC TS TC TA TE Ht H HH bl trailer Hwf Htr S R s0 fuel HB Hend HR H0 Hfuel Hfit.
+  exact (repair_intact_complete_src FNMAX CACHE HFN HC TS TC TA TE Ht H HH bl trailer Hwf Htr S R s0 fuel HB Hend HR H0 Hfuel
+           (conv_no_ser FNMAX CACHE TS TC TA TE H S fuel s0 HC HB
+              (repair_no_ser_refines FNMAX CACHE TS TC TA TE H S _ R fuel s0 HR H0 Hfit))).
+Qed.
 
 (* nothing present before the cut is lost: for every file of the original, the content under its name
    in the output of the translated function is exactly its content bytes lying before the cut *)
@@ -561,10 +612,8 @@ Theorem C05_repair_max_src {LIM : Limit} :
   forall (n : N) (S : Stream) (R : st S -> N -> Prop) (s0 : st S) (fuel : nat),
     RdBounded S ->
     Refines S (takeN n (body TS TC TA TE bl ++ trailer)) R -> R s0 0 -> (N.to_nat n < fuel)%nat ->
-    (* the translated function did not fail with SerializationError: the footer of the repaired
-       archive is within BINCODE_MAX_DESERIALIZE (lim) and the u32 length field *)
-    snd (Src3r.convert_to_archive FNMAX CACHE TS TC TA TE H (footer_ser (fun f => f)) (fun _ => Ok tt) S
-           (block_from FNMAX TS TC TA TE S) fuel s0 aw_init) <> Err EDeser ->
+    (* size premise, see C05_repair_intact_complete *)
+    8 + 3 * n <= N.min lim (2 ^ 32 - 1) ->
     exists (l : Src3r.Locals S) (e : Src3r.FailSafeReadError) (obl : list block),
       Src3r.convert_to_archive FNMAX CACHE TS TC TA TE H (footer_ser (fun f => f)) (fun _ => Ok tt) S
         (block_from FNMAX TS TC TA TE S) fuel s0 aw_init = (l, Ok e) /\
@@ -572,7 +621,12 @@ Theorem C05_repair_max_src {LIM : Limit} :
       (forall f, In f (files_of bl) ->
          content_of (files_of obl) (RepairSpec.f_name f) =
          present (RepairSpec.f_id f) bl (N.min n (len (body TS TC TA TE bl ++ trailer)))).
-Proof. exact repair_max_src. Qed.
+Proof.
+  intros FNMAX CACHE HFN HC TS TC TA TE Ht H HH bl trailer Hwf Htr n S R s0 fuel HB HR H0 Hfuel Hfit.
+  exact (repair_max_src FNMAX CACHE HFN HC TS TC TA TE Ht H HH bl trailer Hwf Htr n S R s0 fuel HB HR H0 Hfuel
+           (conv_no_ser FNMAX CACHE TS TC TA TE H S fuel s0 HC HB
+              (repair_no_ser_cut FNMAX CACHE TS TC TA TE H S _ n R fuel s0 HR H0 Hfit))).
+Qed.
 Theorem C05_repair_max_any_prefix_src : ltac:(let t := type of @repair_max_any_prefix_src in exact t).
 Proof. exact (@repair_max_any_prefix_src). Qed.
 Theorem C05_repair_intact_complete_throttled_src : ltac:(let t := type of @repair_intact_complete_throttled_src in exact t).
